@@ -66,6 +66,30 @@ StrVals == {None, Sc("str:v1", ""), Sc("str:V1", ""), Sc("str:v2", ""),
 (* array values of an array-typed object: NULL, empty, one, two elements *)
 ArrVals == {None, Li(<<>>), Li(<<U8a>>), Li(<<U8a, U8b>>)}
 
+(* ---- CIMDateTime values: <<kind, instant (UTC), utc offset, precision, text>> *)
+Dt(kind, inst, off, prec, text) == Mk("DateTime", <<>>, <<kind, inst, off, prec, text>>, <<>>)
+(* Field boundaries.  A CIM datetime has fixed-width fields: yyyy = 0001..9999  *)
+(* for a point in time, dddddddd = 00000000..99999999 for an interval.  The  *)
+(* classes of a value by its leading field: lower bound (year 0001, 0 days), *)
+(* fewer significant digits than the field is wide (year 0999 / 0100: the    *)
+(* field is filled with leading zeros), first value of full width (1000),    *)
+(* upper bound (9999, 99999999 days); at full precision and with asterisks.  *)
+(* Every law (== , hash, copy.copy / deepcopy / pickle yield an equal        *)
+(* object) ranges over them, stand-alone and as a value inside an object.    *)
+dtY1 == Dt("ts", "0001-01-01T00:00:00.000000Z", "0", "none", "00010101000000.000000+000")
+dtY999 == Dt("ts", "0999-12-31T23:59:59.999999Z", "0", "none", "09991231235959.999999+000")
+dtY100o == Dt("ts", "0099-12-31T23:00:00.000000Z", "60", "none", "01000101000000.000000+060")
+dtY999p == Dt("ts", "0999-12-31T23:00:00.000000Z", "0", "10", "0999123123****.******+000")
+dtY1000 == Dt("ts", "1000-01-01T00:00:00.000000Z", "0", "none", "10000101000000.000000+000")
+dtY9999 == Dt("ts", "9999-12-31T23:59:59.999999Z", "0", "none", "99991231235959.999999+000")
+dtIvMax == Dt("iv", "8639999999999999999", "0", "none", "99999999235959.999999:000")
+dtIv0 == Dt("iv", "0", "0", "none", "00000000000000.000000:000")
+UDateTimeBoundary == {dtY1, dtY999, dtY100o, dtY999p, dtY1000, dtY9999, dtIvMax, dtIv0}
+(* datetime values held by other objects (value slot, array, keybinding)   *)
+(* (one per class that is not the ordinary one: lower bound, leading zeros, *)
+(* upper bound of the interval field)                                      *)
+DtVals == {dtY1, dtY999, dtIvMax}
+
 (* ---- bag configurations from four children:                            *)
 (*      c1, c1v (= c1 in another lexical case), c1m (one attribute         *)
 (*      changed), c2 (other name)                                          *)
@@ -76,6 +100,7 @@ BagCfgs(c1, c1v, c1m, c2) ==
 (* ---- Qualifier ---- *)
 QAt1 == <<"s:string", "none", "none", "none", "none", "none">>
 QAt2 == <<"s:string", "True", "True", "False", "True", "False">>
+QAtD == <<"s:datetime", "none", "none", "none", "none", "none">>
 QDoms == <<Types, Flag, Flag, Flag, Flag, Flag>>
 Qual(name, at, v) == Mk("Qualifier", <<name>>, at, <<One(v)>>)
 UQualifier ==
@@ -84,6 +109,7 @@ UQualifier ==
                                          at \in DevsOf({QAt1, QAt2}, QDoms) }
   \cup { Qual(n, QAt2, v) : n \in OwnFew, v \in StrVals }
   \cup { Qual(n, QAt2, Sc("str:v1", "")) : n \in FoldNames }
+  \cup { Qual(Nm("n1", 0), QAtD, v) : v \in DtVals }
 q1 == Qual(Nm("n1", 0), QAt2, Sc("str:v1", ""))
 q1v == Qual(Nm("n1", 1), QAt2, Sc("str:v1", ""))
 q1m == Qual(Nm("n1", 0), [QAt2 EXCEPT ![4] = "True"], Sc("str:v1", ""))
@@ -132,6 +158,8 @@ KbCfgs ==
          <<Kb("n2", 1, Sc("int:1", "1")), Kb("n1", 1, None)>>,
          <<Kb("n2", 0, U8a), Kb("n3", 0, None)>>,
          <<Kb("n1", 0, None), Kb("n3", 0, None)>> }
+  \* datetime key values at the field boundaries
+  \cup { <<Kb("n1", 0, v)>> : v \in DtVals }
   \* keys of the special-fold class
   \cup { <<Kb(n.b, n.c, Sc("int:1", "1"))>> : n \in FoldNames }
   \cup { <<Kb("n6s", 0, Sc("int:2", "2"))>> }
@@ -173,6 +201,8 @@ PAt2 == <<"s:string", "s:instance", "False", "i:5", "True">>
 PAtE == <<"s:string", "s:instance", "False", "none", "none">>
 PAtR == <<"s:reference", "none", "False", "none", "none">>
 PAtA == <<"s:uint8", "none", "True", "none", "none">>
+PAtD == <<"s:datetime", "none", "False", "none", "none">>
+PAtDA == <<"s:datetime", "none", "True", "none", "none">>
 PDoms == <<Types, Emb, Flag, ASize, Flag>>
 Prop(name, rc, co, at, v, qs) == Mk("Property", <<name, rc, co>>, at, <<One(v), qs>>)
 PropNames ==
@@ -199,6 +229,8 @@ UProperty ==
   \cup { Prop(Nm("n1", 0), NoName, NoName, PAtA, v, <<>>) : v \in ArrVals }
   \cup { Prop(t[1], t[2], t[3], PAt1, None, <<>>) : t \in FoldPropNames }
   \cup { Prop(Nm("n1", 0), NoName, NoName, PAtE, v, <<>>) : v \in EmbVals }
+  \cup { Prop(Nm("n1", 0), NoName, NoName, PAtD, v, <<>>) : v \in DtVals }
+  \cup { Prop(Nm("n1", 0), NoName, NoName, PAtDA, Li(<<v, dtY1000>>), <<>>) : v \in DtVals }
   \cup { Prop(Nm("n1", 0), Nm("n1", 0), NoName, PAtR, v, <<>>) : v \in RefVals }
   \cup { Prop(n, NoName, NoName, PAt1, U8a, qs) : n \in OwnFew, qs \in QualCfgs }
 p1 == Prop(Nm("n1", 0), NoName, NoName, PAt1, U8a, <<>>)
@@ -212,6 +244,7 @@ PropCfgs == { [i \in 1..Len(s) |-> Named(s[i])] : s \in BagCfgs(p1, p1v, p1m, p2
 RAt1 == <<"s:uint8", "none", "False", "none">>
 RAt2 == <<"s:string", "s:object", "True", "i:7">>
 RAtA == <<"s:uint8", "none", "True", "none">>
+RAtD == <<"s:datetime", "none", "False", "none">>
 RDoms == <<Types, Emb, Flag, ASize>>
 Parm(name, rc, at, v, qs) == Mk("Parameter", <<name, rc>>, at, <<One(v), qs>>)
 UParameter ==
@@ -221,6 +254,7 @@ UParameter ==
            n \in OwnFew, at \in DevsOf({RAt1, RAt2}, RDoms) }
   \cup { Parm(n, NoName, RAt1, v, <<>>) : n \in OwnFew, v \in NumVals }
   \cup { Parm(Nm("n1", 0), NoName, RAtA, v, <<>>) : v \in ArrVals }
+  \cup { Parm(Nm("n1", 0), NoName, RAtD, v, <<>>) : v \in DtVals }
   \cup { Parm(n, NoName, RAt1, None, <<>>) : n \in FoldNames }
   \cup { Parm(Nm("n1", 0), rc, RAt1, None, <<>>) : rc \in FoldNames }
   \cup { Parm(n, NoName, RAt2, None, qs) : n \in OwnFew, qs \in QualCfgs }
@@ -260,6 +294,9 @@ UInstance ==
   \cup { Inst(cn, <<>>, ps, <<>>) : cn \in OwnFew, ps \in PropCfgs }
   \cup { Inst(cn, One(ipath1), <<Named(p1)>>, qs) : cn \in OwnFew, qs \in QualCfgs }
   \cup { Inst(cn, <<>>, <<>>, <<>>) : cn \in FoldNames }
+  \cup { Inst(Nm("n1", 0), One(IName(Nm("n1", 0), NoName, NoName, <<Kb("n1", 0, v)>>)),
+               <<Named(Prop(Nm("n1", 0), NoName, NoName, PAtD, v, <<>>))>>, <<>>) :
+           v \in DtVals }
 cpath1 == CName(Nm("n1", 0), NoName, Nm("n1", 0))
 cpath1v == CName(Nm("n1", 1), NoName, Nm("n1", 1))
 cpath2 == CName(Nm("n1", 0), Nm("n2", 0), Nm("n1", 0))
@@ -275,7 +312,6 @@ UClass ==
   \cup { Cls(Nm("n1", 0), sc, <<>>, <<>>, <<>>, <<>>) : sc \in FoldNames }
 
 (* ---- CIMDateTime: <<kind, instant (UTC), utc offset, precision, text>> ---- *)
-Dt(kind, inst, off, prec, text) == Mk("DateTime", <<>>, <<kind, inst, off, prec, text>>, <<>>)
 UDateTime ==
   { Dt("ts", "2014-09-24T17:30:40.654321Z", "120", "none", "20140924193040.654321+120"),
     Dt("ts", "2014-09-24T17:30:40.654321Z", "60", "none", "20140924183040.654321+060"),
@@ -288,6 +324,7 @@ UDateTime ==
     Dt("iv", "1040523000000", "0", "15", "00000012010203.******:000"),
     Dt("iv", "1040523000000", "0", "none", "00000012010203.000000:000"),
     Dt("iv", "0", "0", "none", "00000000000000.000000:000") }
+  \cup UDateTimeBoundary
 
 (* ---- NocaseDict ---- *)
 NDict(items) == Mk("NocaseDict", <<>>, <<>>, <<items>>)
